@@ -51,6 +51,16 @@ class SelectedSet:
             self._set.discard(replace)
         self._set.add(selected)
 
+    def remove(self, selected: SelectedMailbox) -> None:
+        """Remove a selected mailbox object from the set, so that it can no
+        longer be returned by :meth:`.any_selected`.
+
+        Args:
+            selected: The selected mailbox object that is no longer in use.
+
+        """
+        self._set.discard(selected)
+
     @property
     def any_selected(self) -> SelectedMailbox | None:
         """A single, random object in the set of selected mailbox objects.
@@ -365,6 +375,14 @@ class SelectedMailbox:
         """Session-only flags for the mailbox."""
         return self._session_flags
 
+    def deselect(self) -> None:
+        """Marks the mailbox as no longer selected by the session, removing
+        it from its :class:`SelectedSet`.
+
+        """
+        if self._selected_set is not None:
+            self._selected_set.remove(self)
+
     def set_deleted(self) -> None:
         """Marks the selected mailbox as having been deleted."""
         self._is_deleted = True
@@ -414,6 +432,8 @@ class SelectedMailbox:
                    self._session_flags, self._selected_set, self._lookup,
                    _mod_sequence=self._mod_sequence,
                    _prev=frozen, _messages=self._messages)
+        if self._selected_set is not None:
+            self._selected_set.add(copy, replace=self)
         if self._prev is not None:
             with_uid: bool = getattr(command, 'uid', False)
             untagged = self._compare(self._prev, frozen, with_uid)
